@@ -126,7 +126,7 @@ def summarise(prop, tier, seed, rep):
             undecided[k] = [o for o in lst if verify.status(o) == 'undecided']
     vac = []
     for o in covers:
-        if o.clause == 'vacuity.pre-satisfiable' and verify.status(o) != 'covered':
+        if o.clause == 'vacuity.pre-satisfiable' and verify.status(o) == 'dead':
             vac.append('%s: precondition not shown satisfiable (%s)' % (o.func, o.verdict))
     if not proofs:
         vac.append('zero obligations generated')
